@@ -488,6 +488,7 @@ func Main(prop, level string, run func(*Run)) {
 			fmt.Fprintln(os.Stderr, "harness: companion summary unreadable:", err)
 			r.Cap("the schedule-exploration companion run left no summary: " + err.Error())
 		}
+		os.Remove(cs)
 	}
 	r.Finish()
 }
